@@ -336,6 +336,7 @@ static int s_connect(ares_socket_t fd, const struct sockaddr *sa, ares_socklen_t
   }
   s->server         = server_of_sa(w, sa);
   s->connect_called = true;
+  s->local_variant  = w->src_variant; // the kernel picks the source address when the socket is connected
   if (take_fault(w, FS_CONNECT)) {
     w->log(fmt("connect(%d,srv%d) -> ECONNREFUSED", fd, s->server));
     errno = ECONNREFUSED;
@@ -398,6 +399,7 @@ static ares_ssize_t s_recvfrom(ares_socket_t fd, void *buf, size_t len, int, str
     if (p.serial >= 1 && p.serial <= (int)w->packets.size()) {
       w->packets[(size_t)p.serial - 1].t_read  = w->now_us;
       w->packets[(size_t)p.serial - 1].ev_read = w->cur_ev;
+      w->packets[(size_t)p.serial - 1].seq_read = ++w->seq;
     }
     return (ares_ssize_t)n;
   }
@@ -423,6 +425,7 @@ static ares_ssize_t s_recvfrom(ares_socket_t fd, void *buf, size_t len, int, str
     if (tp.first <= s->inpos && w->packets[(size_t)tp.second - 1].t_read < 0) {
       w->packets[(size_t)tp.second - 1].t_read  = w->now_us;
       w->packets[(size_t)tp.second - 1].ev_read = w->cur_ev;
+      w->packets[(size_t)tp.second - 1].seq_read = ++w->seq;
     }
   w->log(fmt("recv(%d) tcp %zu bytes", fd, n));
   return (ares_ssize_t)n;
@@ -491,7 +494,7 @@ static int s_getsockname(ares_socket_t fd, struct sockaddr *addr, ares_socklen_t
     memset(&a, 0, sizeof a);
     a.sin6_family = AF_INET6;
     a.sin6_port   = htons(40000);
-    inet_pton(AF_INET6, w->src_variant ? "fd00::101" : "fd00::100", &a.sin6_addr);
+    inet_pton(AF_INET6, s->local_variant ? "fd00::101" : "fd00::100", &a.sin6_addr);
     if (*alen < sizeof a) {
       errno = EINVAL;
       return -1;
@@ -504,7 +507,7 @@ static int s_getsockname(ares_socket_t fd, struct sockaddr *addr, ares_socklen_t
   memset(&a, 0, sizeof a);
   a.sin_family      = AF_INET;
   a.sin_port        = htons(40000);
-  a.sin_addr.s_addr = htonl(0x0a010001u + (uint32_t)w->src_variant); // 10.1.0.1 / 10.1.0.2
+  a.sin_addr.s_addr = htonl(0x0a010001u + (uint32_t)s->local_variant); // 10.1.0.1 / 10.1.0.2
   if (*alen < sizeof a) {
     errno = EINVAL;
     return -1;
@@ -524,6 +527,10 @@ void World::record_tx(VSock &s, const Bytes &msg)
   t.msg    = msg;
   t.q      = vdns::parse_query(msg);
   t.t_us   = now_us;
+  t.src_variant = s.local_variant;
+  t.seq         = ++seq;
+  memcpy(t.ref_fail, ref_fail, sizeof ref_fail);
+  memcpy(t.last_fail_us, ref_last_fail_us, sizeof ref_last_fail_us);
   t.ev_index   = in_closure ? -1 : cur_ev;
   t.in_timer   = in_timer;
   t.in_closure = in_closure;
@@ -578,6 +585,19 @@ static void server_state_cb(const char *server, ares_bool_t ok, int flags, void 
 {
   World *w = (World *)data;
   w->server_state.push_back({ server, ok ? 1 : 0 });
+  {
+    // "10.0.0.k:53" or "[fd00::2]:53"
+    int idx = -1;
+    if (strncmp(server, "10.0.0.", 7) == 0) idx = atoi(server + 7) - 1;
+    else if (strncmp(server, "[fd00::2]", 9) == 0) idx = 1;
+    if (idx >= 0 && idx < 8) {
+      if (ok) w->ref_fail[idx] = 0;
+      else {
+        w->ref_fail[idx]++;
+        w->ref_last_fail_us[idx] = w->now_us;
+      }
+    }
+  }
   w->log(fmt("serverstate(%s,%d,%d)", server, (int)ok, flags));
 }
 static void pending_write_cb(void *data)
@@ -761,7 +781,7 @@ static void scan_rr_markers(const ares_dns_record_t *rec, Token &t, std::string 
       if (a) {
         uint32_t ip = ntohl(a->s_addr);
         out += fmt(",%u.%u.%u.%u", ip >> 24, (ip >> 16) & 255, (ip >> 8) & 255, ip & 255);
-        if ((ip >> 16) == 0x0a09) t.markers.push_back((int)(ip & 0xffff));
+        if ((ip >> 24) == 10 && ((ip >> 16) & 255) >= 9 && ((ip >> 16) & 255) <= 15) t.markers.push_back((int)(ip & 0xffff));
       }
     } else if (type == ARES_REC_TYPE_AAAA) {
       const struct ares_in6_addr *a = ares_dns_rr_get_addr6(rr, ARES_RR_AAAA_ADDR);
@@ -813,6 +833,7 @@ static void complete(CbCtx *c, int status, int timeouts, const std::string &res)
   t.result              = res;
   t.t_done              = w->now_us;
   t.ev_done             = w->cur_ev;
+  t.seq_done            = ++w->seq;
   t.tx_at_done          = (int)w->txs.size();
   t.done_during_destroy = w->in_destroy;
   if (!w->in_lib) w->violate("HARNESS:callback-outside-library", "callback while not inside a library call");
@@ -868,6 +889,25 @@ static void cb_legacy(void *arg, int status, int timeouts, unsigned char *abuf, 
   }
   complete(c, status, timeouts, r);
 }
+static bool marker_v4(uint32_t ip, int *serial, int *idx)
+{
+  unsigned o2 = (ip >> 16) & 255;
+  if ((ip >> 24) == 10 && o2 >= 9 && o2 <= 15) {
+    *serial = (int)(ip & 0xffff);
+    *idx    = (int)o2 - 9;
+    return true;
+  }
+  return false;
+}
+static bool marker_v6(const unsigned char *p, int *serial, int *idx)
+{
+  if (p[0] == 0x20 && p[1] == 0x01 && p[2] == 0x0d && p[3] == 0xb8) {
+    *serial = (int)(p[12] << 24 | p[13] << 16 | p[14] << 8 | p[15]);
+    *idx    = p[11];
+    return true;
+  }
+  return false;
+}
 static void cb_addrinfo(void *arg, int status, int timeouts, struct ares_addrinfo *ai)
 {
   CbCtx      *c = (CbCtx *)arg;
@@ -876,20 +916,37 @@ static void cb_addrinfo(void *arg, int status, int timeouts, struct ares_addrinf
     Token &t = c->w->toks[(size_t)c->tok];
     bool   first = t.count == 0;
     r            = std::string("name=") + (ai->name ? ai->name : "-");
-    for (struct ares_addrinfo_cname *cn = ai->cnames; cn; cn = cn->next) r += fmt(" cname(%s->%s,ttl=%d)", cn->alias ? cn->alias : "-", cn->name ? cn->name : "-", cn->ttl);
+    if (first && ai->name) t.names.push_back(std::string("name:") + ai->name);
+    for (struct ares_addrinfo_cname *cn = ai->cnames; cn; cn = cn->next) {
+      r += fmt(" cname(%s->%s,ttl=%d)", cn->alias ? cn->alias : "-", cn->name ? cn->name : "-", cn->ttl);
+      if (first) t.names.push_back(std::string("cname:") + (cn->alias ? cn->alias : "-") + ">" + (cn->name ? cn->name : "-"));
+    }
     for (struct ares_addrinfo_node *n = ai->nodes; n; n = n->ai_next) {
+      Token::Addr a;
+      a.fam = n->ai_family;
+      a.serial = 0;
+      a.idx = 0;
+      a.ttl = n->ai_ttl;
+      a.port = 0;
       if (n->ai_family == AF_INET) {
         struct sockaddr_in *sa = (struct sockaddr_in *)n->ai_addr;
         uint32_t            ip = ntohl(sa->sin_addr.s_addr);
-        r += fmt(" a(%u.%u.%u.%u:%u,ttl=%d)", ip >> 24, (ip >> 16) & 255, (ip >> 8) & 255, ip & 255, ntohs(sa->sin_port), n->ai_ttl);
-        if (first && (ip >> 16) == 0x0a09) t.markers.push_back((int)(ip & 0xffff));
+        a.port                 = ntohs(sa->sin_port);
+        a.raw                  = fmt("%u.%u.%u.%u", ip >> 24, (ip >> 16) & 255, (ip >> 8) & 255, ip & 255);
+        r += " a(" + a.raw + fmt(":%u,ttl=%d)", a.port, n->ai_ttl);
+        if (marker_v4(ip, &a.serial, &a.idx) && first) t.markers.push_back(a.serial);
       } else if (n->ai_family == AF_INET6) {
         struct sockaddr_in6 *sa = (struct sockaddr_in6 *)n->ai_addr;
         const unsigned char *p  = (const unsigned char *)&sa->sin6_addr;
-        r += " aaaa(" + vf::hex(p, 16) + fmt(":%u,ttl=%d)", ntohs(sa->sin6_port), n->ai_ttl);
-        if (first && p[0] == 0x20 && p[1] == 0x01) t.markers.push_back((int)(p[12] << 24 | p[13] << 16 | p[14] << 8 | p[15]));
+        a.port                  = ntohs(sa->sin6_port);
+        a.raw                   = vf::hex(p, 16);
+        r += " aaaa(" + a.raw + fmt(":%u,ttl=%d)", a.port, n->ai_ttl);
+        if (marker_v6(p, &a.serial, &a.idx) && first) t.markers.push_back(a.serial);
       }
-      if (first) t.ttls.push_back((uint32_t)n->ai_ttl);
+      if (first) {
+        t.ttls.push_back((uint32_t)n->ai_ttl);
+        t.addrs.push_back(a);
+      }
     }
     ares_freeaddrinfo(ai);
   }
@@ -903,13 +960,30 @@ static void cb_host(void *arg, int status, int timeouts, struct hostent *h)
     Token &t = c->w->toks[(size_t)c->tok];
     bool   first = t.count == 0;
     r            = std::string("h_name=") + (h->h_name ? h->h_name : "-");
-    for (char **a = h->h_aliases; a && *a; a++) r += std::string(" alias=") + *a;
+    if (first && h->h_name) t.names.push_back(std::string("name:") + h->h_name);
+    for (char **a = h->h_aliases; a && *a; a++) {
+      r += std::string(" alias=") + *a;
+      if (first) t.names.push_back(std::string("alias:") + *a);
+    }
     if (first && h->h_name && h->h_name[0] == 'p' && isdigit((unsigned char)h->h_name[1])) t.markers.push_back(atoi(h->h_name + 1));
-    for (char **a = h->h_addr_list; a && *a; a++) {
-      const unsigned char *p = (const unsigned char *)*a;
-      r += " addr=" + vf::hex(p, (size_t)h->h_length);
-      if (first && h->h_addrtype == AF_INET && p[0] == 10 && p[1] == 9) t.markers.push_back(p[2] << 8 | p[3]);
-      if (first && h->h_addrtype == AF_INET6 && p[0] == 0x20) t.markers.push_back((int)(p[12] << 24 | p[13] << 16 | p[14] << 8 | p[15]));
+    for (char **al = h->h_addr_list; al && *al; al++) {
+      const unsigned char *p = (const unsigned char *)*al;
+      Token::Addr          a;
+      a.fam = h->h_addrtype;
+      a.serial = 0;
+      a.idx = 0;
+      a.ttl = -1;
+      a.port = 0;
+      a.raw = vf::hex(p, (size_t)h->h_length);
+      r += " addr=" + a.raw;
+      if (h->h_addrtype == AF_INET) {
+        uint32_t ip = (uint32_t)p[0] << 24 | (uint32_t)p[1] << 16 | (uint32_t)p[2] << 8 | p[3];
+        a.raw       = fmt("%u.%u.%u.%u", p[0], p[1], p[2], p[3]);
+        if (marker_v4(ip, &a.serial, &a.idx) && first) t.markers.push_back(a.serial);
+      } else if (h->h_addrtype == AF_INET6) {
+        if (marker_v6(p, &a.serial, &a.idx) && first) t.markers.push_back(a.serial);
+      }
+      if (first) t.addrs.push_back(a);
     }
   }
   complete(c, status, timeouts, r);
@@ -920,6 +994,7 @@ static void cb_nameinfo(void *arg, int status, int timeouts, char *node, char *s
   std::string r = fmt("node=%s service=%s", node ? node : "-", service ? service : "-");
   if (node) {
     Token &t = c->w->toks[(size_t)c->tok];
+    if (t.count == 0) t.names.push_back(std::string("name:") + node);
     if (t.count == 0 && node[0] == 'p' && isdigit((unsigned char)node[1])) t.markers.push_back(atoi(node + 1));
   }
   complete(c, status, timeouts, r);
@@ -937,6 +1012,7 @@ int World::issue(int reqidx, bool from_cb)
   t.issued_in_cb = from_cb;
   t.t_issue      = now_us;
   t.ev_issue     = cur_ev;
+  t.seq_issue    = ++seq;
   t.tx_at_issue  = (int)txs.size();
   t.cbmode       = from_cb ? 0 : r.cbmode;
   t.cbarg        = r.cbarg;
@@ -1244,14 +1320,19 @@ Bytes World::build_reply(const Transmission &tx, int kind, Packet &pk)
     rr.type  = type;
     rr.cls   = qq.qclass;
     rr.ttl   = ttl;
+    int ridx = (int)pk.rrs.size();
     switch (type) {
-      case vdns::T_A: rr.rdata = vdns::rdata_a(0x0a090000u | (m & 0xffff)); break;
-      case vdns::T_AAAA: rr.rdata = vdns::rdata_aaaa(m); break;
+      case vdns::T_A: rr.rdata = vdns::rdata_a(0x0a090000u + ((uint32_t)ridx << 16) | (m & 0xffff)); break;
+      case vdns::T_AAAA:
+        rr.rdata     = vdns::rdata_aaaa(m);
+        rr.rdata[11] = (unsigned char)ridx;
+        break;
       case vdns::T_PTR: rr.rdata = vdns::rdata_name(vdns::labels_of("p" + std::to_string(m) + ".example")); break;
       case vdns::T_TXT: rr.rdata = vdns::rdata_txt("pk" + std::to_string(m)); break;
       default: rr.rdata = vdns::rdata_txt("pk" + std::to_string(m)); rr.type = vdns::T_TXT; break;
     }
     r.an.push_back(rr);
+    pk.rrs.push_back({ (int)rr.type, (int)rr.cls, ridx, ttl });
     pk.carries_data = true;
     pk.ttl          = ttl;
   };
